@@ -273,6 +273,34 @@ func c20Gen(rng *rand.Rand, tier string, w *bufio.Writer) {
 		}
 		fmt.Fprintf(w, "routes %d %s\n", N, strings.Join(rs, ","))
 	}
+	// the glue: raw requests through the real gateway (one name under two islands, two RPCs, a four-part name), and the
+	// IslandID every SDK method puts on the wire
+	fmt.Fprintln(w, "case 200")
+	ua := func(k int) string { // a name part the gateway accepts, unique within the run
+		const al = "abcdefghijklmnopqrstuvwxyz0123456789-_."
+		b := make([]byte, 1+rng.Intn(10))
+		for i := range b {
+			b[i] = al[rng.Intn(len(al)-1)]
+		}
+		return c20Hex(append(b, []byte(strconv.Itoa(k))...))
+	}
+	fmt.Fprintf(w, "srv %s %s %s 956 7 3 2000\n", c20Hex([]byte("users")), c20Hex([]byte("profiles")), c20Hex([]byte("alice")))
+	fmt.Fprintf(w, "wire %s %s %s 7\n", c20Hex([]byte("users")), c20Hex([]byte("profiles")), c20Hex([]byte("alice")))
+	ns, nw := 3, 1
+	if tier == "thorough" {
+		ns, nw = 40, 12
+	}
+	for i := 0; i < ns; i++ {
+		i1 := uint64(1 + rng.Intn(1000))
+		i2 := i1
+		if rng.Intn(4) != 0 {
+			i2 = uint64(1 + rng.Intn(1000))
+		}
+		fmt.Fprintf(w, "srv %s %s %s %d %d 3 2000\n", ua(3*i), ua(3*i+1), ua(3*i+2), i1, i2)
+	}
+	for i := 0; i < nw; i++ {
+		fmt.Fprintf(w, "wire %s %s %s %d\n", ua(1000+3*i), ua(1001+3*i), ua(1002+3*i), c20N(rng)|1)
+	}
 	for i := 0; i < n; i++ {
 		if i%500 == 0 {
 			fmt.Fprintf(w, "case %d\n", 1+i/500)
@@ -345,10 +373,12 @@ func c20Try(f func() string) (out string) {
 
 func c20Run(in *bufio.Scanner, w *bufio.Writer) {
 	var farm *c20Farm
+	srvRig := &c20SrvRig{}
 	defer func() {
 		if farm != nil {
 			farm.Stop()
 		}
+		srvRig.stop()
 	}()
 	for in.Scan() {
 		line := in.Text()
@@ -369,6 +399,31 @@ func c20Run(in *bufio.Scanner, w *bufio.Writer) {
 				}
 			}
 			fmt.Fprintln(w, c20Routes(farm, f[1], f[2]))
+		case f[0] == "srv" && len(f) == 8:
+			s, o1 := c20Unhex(f[1])
+			r, o2 := c20Unhex(f[2])
+			sw, o3 := c20Unhex(f[3])
+			i1, e1 := strconv.ParseUint(f[4], 10, 64)
+			i2, e2 := strconv.ParseUint(f[5], 10, 64)
+			d, e3 := strconv.Atoi(f[6])
+			p, e4 := strconv.Atoi(f[7])
+			if !o1 || !o2 || !o3 || e1 != nil || e2 != nil || e3 != nil || e4 != nil || d < 0 || d > 8 || p < 1 {
+				bad()
+				continue
+			}
+			miscQuiet()
+			fmt.Fprintln(w, c20Try(func() string { return c20Srv(srvRig, string(s), string(r), string(sw), i1, i2, d, p) }))
+		case f[0] == "wire" && len(f) == 5:
+			s, o1 := c20Unhex(f[1])
+			r, o2 := c20Unhex(f[2])
+			sw, o3 := c20Unhex(f[3])
+			N, e1 := strconv.ParseUint(f[4], 10, 64)
+			if !o1 || !o2 || !o3 || e1 != nil || N == 0 {
+				bad()
+				continue
+			}
+			miscQuiet()
+			fmt.Fprintln(w, c20Try(func() string { return c20WireOp(string(s), string(r), string(sw), N) }))
 		case f[0] == "n" && len(f) == 7:
 			s, o1 := c20Unhex(f[1])
 			r, o2 := c20Unhex(f[2])
